@@ -71,6 +71,8 @@ Step ==
                  Clause("summation-index-links-exactly-two-factors",
                         \/ Rec.links[i].min_uses = 2 /\ Rec.links[i].max_uses = 2
                         \/ Rec.links[i].n_values = 1 /\ Rec.links[i].min_uses \in {1, 2} /\ Rec.links[i].max_uses \in {1, 2}, Rec.links[i])
+                 \* an index is a spin projection - a row or column label of a rotation matrix - and never (part of) one of its angles
+                 /\ Clause("summation-index-is-never-an-angle", Rec.links[i].as_angle = 0, Rec.links[i])
        [] Rec.kind = "relabel" ->
             \* relabel_edge_ids (every id shifted by one) commutes with formulate(): same intensity on the same events
             Stat("relabel") /\ Clause("relabelled-reaction-has-the-same-intensity", Rec.nan = 0 /\ Rec.reldiff_q <= Tol, <<Rec.reldiff_q, Rec.nan>>)
